@@ -47,7 +47,7 @@ class Contribution:
 def _elem_conds(conds):
     out = []
     for e, c in conds:
-        if c[0] == "bool" and any(contains(x, lambda y: y[0] == "bound" and y[1] == "elem") for x in c[1][1]):
+        if c[0] == "bool" and not q.is_derived(c) and any(contains(x, lambda y: y[0] == "bound" and y[1] == "elem") for x in c[1][1]):
             out.append(c[1])
     return out
 
